@@ -359,6 +359,9 @@ def check(ctx):
     from . import c03 as _c03
     from ..report import Renamed as _RenW
     _c03.rule_widening(_RenW(ctx, {'*': 'R10'}))
+    # Dataset.reindex_axis / reindex_like run through Dataset.take_axis -> reduce_axis: per-variable position and per-variable axis order (shared with C14)
+    ctx.rule('R11', 'Dataset.reduce_axis: per-variable position, axes in the variable\'s own order (shared with C14)', 4)
+    _c14.rule_reduce_axis(Renamed(ctx, {'*': 'R11'}))
     ctx.not_decided += ['slice-by-slice equality with the original data', 'identity on own labels', 'searchsorted neighbour semantics for method=']
     ctx.trusted += ['ndarray.take(indices, axis=) semantics', 'np.searchsorted / ndarray.take(mode=clip) semantics']
     return EXPLANATION
